@@ -194,7 +194,7 @@ fn check_exit_status(ctx: &Ctx, judgements: &[DocJudgement], out: &mut Vec<Viola
     }
     // the report: at most one result per test case, exactly one for every non-detached test
     // case of every document that was processed to the end
-    if status != 1 {
+    if status != 1 && !sc.pretty {
         for (d, j) in obs.docs.iter().zip(judgements.iter()) {
             for tj in &j.tests {
                 let Some(to) = d.tests.iter().find(|t| t.nonce == tj.nonce) else { continue };
